@@ -2514,3 +2514,27 @@ pub proof fn lemma_parse_headers_agrees(pre: Seq<u8>, h: Seq<u8>, cfg: HCfg, cap
     lemma_hdrs_shift(pre, h, 0, Seq::empty(), cfg, cap);
     assert(sh_acc(Seq::<SHdr>::empty(), pre.len() as int) =~= Seq::<SHdr>::empty());
 }
+
+// ------------------------------------------------------------------------------------------------ C20: the counting step
+// What the contracts establish per loop SITE: every iteration starts at a cursor value strictly larger than the previous
+// iteration of that site (the loop's own `decreases len - cursor`, and `cursor(final) >= cursor(old)` in the contract of
+// everything executed in between), and all of them lie in [cur0, len].  The counting step of the linear-work argument is
+// then this lemma: such a site runs at most len - cur0 + 1 times in one call, so the call executes at most
+// (number of loop sites) * (len + 1) iterations, each of bounded cost apart from the two slice scans whose ranges are disjoint
+// sub-ranges of the buffer (the value trim, the UTF-8 check of the target).  The link from the executions of the real code
+// to `cursors` is the set of discharged `decreases` / frame obligations; it is an argument, not a Verus term (DESIGN 5, C20).
+pub open spec fn strictly_increasing(s: Seq<int>) -> bool { forall|i: int, j: int| 0 <= i < j < s.len() ==> s[i] < s[j] }
+// @tags C20
+pub proof fn lemma_site_iterations_bounded(cursors: Seq<int>, cur0: int, len: int)
+    requires strictly_increasing(cursors), forall|i: int| 0 <= i < cursors.len() ==> cur0 <= #[trigger] cursors[i] <= len,
+    ensures cursors.len() <= len - cur0 + 1 || cursors.len() == 0,
+    decreases cursors.len()
+{
+    if cursors.len() > 0 {
+        let k = cursors.len() - 1;
+        let rest = cursors.subrange(0, k);
+        assert forall|i: int, j: int| 0 <= i < j < rest.len() implies rest[i] < rest[j] by { assert(rest[i] == cursors[i] && rest[j] == cursors[j]); }
+        assert forall|i: int| 0 <= i < rest.len() implies cur0 <= #[trigger] rest[i] <= cursors[k] - 1 by { assert(rest[i] == cursors[i]); assert(cursors[i] < cursors[k]); }
+        lemma_site_iterations_bounded(rest, cur0, cursors[k] - 1);
+    }
+}
